@@ -229,6 +229,19 @@ fn datagram_endpoint() -> s2n_quic::provider::datagram::default::Endpoint {
     s2n_quic::provider::datagram::default::Endpoint::builder().with_send_capacity(32).unwrap().with_recv_capacity(32).unwrap().build().unwrap()
 }
 
+/// endpoint limiter: asks for address validation by Retry when configured (it is only consulted for Initials without a token)
+struct RetryIf(bool);
+
+impl s2n_quic::provider::endpoint_limits::Limiter for RetryIf {
+    fn on_connection_attempt(&mut self, _info: &s2n_quic::provider::endpoint_limits::ConnectionAttempt) -> s2n_quic::provider::endpoint_limits::Outcome {
+        if self.0 {
+            s2n_quic::provider::endpoint_limits::Outcome::retry()
+        } else {
+            s2n_quic::provider::endpoint_limits::Outcome::allow()
+        }
+    }
+}
+
 fn start_server(handle: &Handle, cfg: &EndpointCfg, seed: u64, rec: Recorder, resets: bool, evil: Option<crate::evil::Evil>, tp: TpArg) -> Server {
     if resets {
         start_server_with::<true>(handle, cfg, seed, rec, evil, tp)
@@ -256,6 +269,8 @@ fn start_server_with<const R: bool>(handle: &Handle, cfg: &EndpointCfg, seed: u6
         .with_packet_interceptor((evil, rec))
         .unwrap()
         .with_limits(limits_of(&cfg.limits))
+        .unwrap()
+        .with_endpoint_limits(RetryIf(cfg.retry))
         .unwrap();
     if cfg.datagram {
         finish_start!(b.with_datagram(datagram_endpoint()).unwrap(), cfg.cc)
